@@ -121,8 +121,38 @@ def rename_slides(data: bytes, mode: str, seed: int = 0) -> bytes:
     return rename_parts(data, fin)
 
 
+def drop_notes_master_rel(data: bytes) -> bytes:
+    """A legal but unusual deck: notes slides (each related to the notes master) while the presentation part itself has
+    neither the notesMaster relationship nor the p:notesMasterIdLst entry."""
+    P = "{http://schemas.openxmlformats.org/presentationml/2006/main}"
+    out = []
+    rid = None
+    members = read_members(data)
+    for n, b in members:
+        if n == "ppt/_rels/presentation.xml.rels":
+            root = refpkg.parse(b)
+            for el in list(root):
+                if isinstance(el.tag, str) and (el.get("Type") or "").endswith("/notesMaster"):
+                    rid = el.get("Id")
+                    root.remove(el)
+            b = etree.tostring(root, xml_declaration=True, encoding="UTF-8", standalone=True)
+        out.append((n, b))
+    out2 = []
+    for n, b in out:
+        if n == "ppt/presentation.xml" and rid is not None:
+            root = refpkg.parse(b)
+            lst = root.find(P + "notesMasterIdLst")
+            if lst is not None:
+                root.remove(lst)
+            b = etree.tostring(root, xml_declaration=True, encoding="UTF-8", standalone=True)
+        out2.append((n, b))
+    return write_members(out2)
+
+
 def apply(data: bytes, x: dict) -> bytes:
     kind = x["kind"]
+    if kind == "drop_notes_master_rel":
+        return drop_notes_master_rel(data)
     if kind == "rename_slides":
         return rename_slides(data, x.get("mode", "reverse"), x.get("seed", 0))
     if kind == "ids":
